@@ -516,11 +516,16 @@ pub fn chain(rng: &mut Rng, base: Tensor<i64>, m0: Arr<i64>, budget: usize, stat
                     let axis = rng.below(nd);
                     let extra = rng.urange(0, 2);
                     let with_cap = rng.bool();
+                    // Spare capacity may also be reserved along ANOTHER axis: the buffer is
+                    // then large enough in bytes, but growing `axis` would make rows overlap,
+                    // so append must either refuse or (if it accepts) not corrupt anything.
+                    let cap_axis = if rng.bool() { axis } else { rng.below(nd) };
+                    let slack = rng.urange(1, 3);
                     let clip_a = rng.below(shape[axis] + 1);
                     let clip_b = rng.urange(clip_a, shape[axis]);
                     op_desc = format!(
-                        "owned: append(axis {}, +{}) cap={} then clip_dim({}, {}..{})",
-                        axis, extra, with_cap, axis, clip_a, clip_b
+                        "owned: append(axis {}, +{}) cap={} cap_axis={} slack={} then clip_dim({}, {}..{})",
+                        axis, extra, with_cap, cap_axis, slack, axis, clip_a, clip_b
                     );
                     // Model: concatenate along axis with `extra` slabs holding -k.
                     let mut add_shape = shape.clone();
@@ -543,10 +548,25 @@ pub fn chain(rng: &mut Rng, base: Tensor<i64>, m0: Arr<i64>, budget: usize, stat
                     let r = catch(move || {
                         // Build an owned tensor with capacity for appending along `axis`.
                         let mut cap_shape = shape2.clone();
-                        cap_shape[axis] = shape2[axis] + if with_cap { extra } else { 0 };
-                        let mut t: Tensor<i64> = Tensor::with_capacity(cap_shape.as_slice(), axis);
-                        if shape2[axis] > 0 {
-                            t.append(axis, &vv).expect("append of original");
+                        let mut t: Tensor<i64> = if cap_axis == axis {
+                            cap_shape[axis] = shape2[axis] + if with_cap { extra } else { 0 };
+                            let mut t = Tensor::with_capacity(cap_shape.as_slice(), axis);
+                            if shape2[axis] > 0 {
+                                t.append(axis, &vv).expect("append of original");
+                            }
+                            t
+                        } else {
+                            // Capacity for `slack` more slabs along cap_axis only.
+                            cap_shape[cap_axis] = shape2[cap_axis] + slack;
+                            let mut t = Tensor::with_capacity(cap_shape.as_slice(), cap_axis);
+                            if shape2[cap_axis] > 0 {
+                                t.append(cap_axis, &vv).expect("append of original");
+                            }
+                            t
+                        };
+                        if t.shape() != shape2.as_slice() {
+                            // Zero-sized along the capacity axis: nothing to test here.
+                            return (t, false);
                         }
                         let add = Tensor::from_data(add_shape.as_slice(), addend.data.clone());
                         let appended = if extra > 0 { t.append(axis, &add).is_ok() } else { true };
